@@ -387,9 +387,35 @@ def replay(ctx, obj):
         os.execv(sys.executable, [sys.executable, os.path.join(common.VERIF, 'tools', 'check.py'), ctx.prop,
                                   '--tier', obj.get('tier', 'quick')])
     common.lake_build(['opusmodel'])
-    rc, out = common.sh([h, 'stdin'], input='\n'.join(lines) + '\n',
+    # ops that cannot be re-run from their input line alone (the recorded line is an observation of a run of the real code on
+    # generated inputs): regenerate the same stream (same seed, same tier) and look the line up
+    quick = obj.get('tier', 'quick') == 'quick'
+    seed = str(obj.get('seed', ctx.seed))
+    streams = {'pitchenc': lambda: [_pitchenc_harness(ctx), 'tail', seed, '12000' if quick else '300000'],
+               'synthcore': lambda: [_synthidx_harness(ctx), 'core', seed, '4000' if quick else '200000'],
+               'synthframe': lambda: [_synthidx_harness(ctx), 'frames', seed, '1500' if quick else '60000'],
+               'synthparams': lambda: [_synthidx_harness(ctx), 'params', seed, '6000' if quick else '300000'],
+               'synthout': lambda: [_synthidx_harness(ctx), 'out', seed, '1200' if quick else '40000']}
+    looked = {}
+    for op in sorted(set(l.split(' ')[1] for l in lines if len(l.split(' ')) > 1) & set(streams)):
+        rc, out = common.sh(streams[op](), env={'ASAN_OPTIONS': 'detect_leaks=0:abort_on_error=0'}, timeout=3000)
+        cur = None
+        for l in out.split('\n'):
+            if l.startswith('I '):
+                cur = l[2:]
+            elif l.startswith('O ') and cur is not None:
+                looked.setdefault(cur, l[2:])
+                cur = None
+    direct = [l for l in lines if l.split(' ')[1] not in streams]
+    rc, out = common.sh([h, 'stdin'], input='\n'.join(direct) + '\n',
                         env={'ASAN_OPTIONS': 'detect_leaks=0:abort_on_error=0'})
-    impl = [l[2:] for l in out.split('\n') if l.startswith('O ')]
+    dimpl = [l[2:] for l in out.split('\n') if l.startswith('O ')]
+    impl = []
+    for l in lines:
+        if l.split(' ')[1] in streams:
+            impl.append(looked.get(l, '(the regenerated stream no longer contains this input)'))
+        else:
+            impl.append(dimpl.pop(0) if dimpl else '(no answer)')
     model = common.model_eval(lines)
     bad = 0
     for i, l in enumerate(lines):
